@@ -113,7 +113,9 @@ def _rand_model(rng):
             if configs:
                 types.append(dict(name=tname, entry_count=n, configs=configs))
         if types:
-            pkgs.append((pid, "com.example.p%d" % pi, types))
+            # header with typeIdOffset (0 or, as in feature splits, > 0) or the older 284-byte header without the field
+            opts = rng.choice([{}, {}, {"hdr": 284}, {"type_id_offset": rng.choice([1, 2, 5])}])
+            pkgs.append((pid, "com.example.p%d" % pi, types, opts))
     return pkgs
 
 
@@ -155,8 +157,9 @@ def generated_tables(U):
     if not o.ok:
         return
     p = o.value
-    U.ensures("package listing", sorted(p.get_packages_names()) == sorted(n for _, n, _ in model), got=p.get_packages_names())
-    for pid, pname, types in model:
+    U.ensures("package listing", sorted(p.get_packages_names()) == sorted(pk[1] for pk in model), got=p.get_packages_names())
+    for pid, pname, types, opts in model:
+        tid0 = 1 + opts.get("type_id_offset", 0)
         locs = set()
         for t in types:
             for c in t["configs"]:
@@ -164,7 +167,17 @@ def generated_tables(U):
                 loc = cfg.get("lang", "") + ("-r" + cfg["region"] if cfg.get("region") else "")
                 locs.add(loc or "\x00\x00")
         U.ensures("locale listing", set(p.get_locales(pname)) == locs, got=sorted(p.get_locales(pname)), want=sorted(locs))
-        for ti, t in enumerate(types, 1):
+        for loc in sorted(locs):
+            want_t = set()
+            for t in types:
+                for c in t["configs"]:
+                    cfg = c["config"]
+                    if (cfg.get("lang", "") + ("-r" + cfg["region"] if cfg.get("region") else "") or "\x00\x00") == loc and c["entries"]:
+                        want_t.add(t["name"])
+            gt = U.call(p.get_types, pname, loc)
+            U.ensures("type listing of a locale: the names of the types with entries there", gt.ok and set(gt.value) - {"public"} == want_t,
+                      got=gt.value, want=sorted(want_t), locale=loc, exc=repr(gt.exc)[:100])
+        for ti, t in enumerate(types, tid0):
             for i in range(t["entry_count"]):
                 rid = (pid << 24) | (ti << 16) | i
                 want = {}
@@ -204,7 +217,7 @@ def generated_tables(U):
                 U.ensures("key-to-id listing", back.ok and back.value == rid, rid=hex(rid), got=back.value, exc=repr(back.exc)[:100])
         # resolver: concrete values for the default configuration
         rr = m.ARSCParser.ResourceResolver(p, None)
-        for ti, t in enumerate(types, 1):
+        for ti, t in enumerate(types, tid0):
             for c in t["configs"]:
                 for i, e in c["entries"].items():
                     if e.get("type") == 3 and e["kind"] in ("plain", "compact"):
